@@ -20,6 +20,7 @@
     `SetOrd.std`, and observations sort these lists.
 -/
 import HugrVerif.Val
+import HugrVerif.TysEq
 import HugrVerif.Py.Dict
 
 namespace HugrVerif.Ext
@@ -279,7 +280,9 @@ def decPolyP (fuel : Nat) (j : Json) : Except DecErr Poly := do
   | .poly ps i o r => pure ⟨ps, i, o, r⟩
   | _ => throw .validation
 
-/-- the validated serial `OpDef` (`_serialization/extension.py:92-101`) -/
+/-- the validated serial `OpDef` (`_serialization/extension.py:92-101`).  Validation is modelled on
+    documents of the right JSON kinds; pydantic's lax-mode coercions (`"binary": "yes"` is read as
+    `true`) are outside the modelled fragment. -/
 structure RawOpDef where
   name : String
   description : String
@@ -578,5 +581,43 @@ def HelperUse.matches (tbl : List ExtSig) (h : HelperUse) : Bool :=
   match h.params? tbl with
   | none => false
   | some ps => argsFit h.args ps
+
+/-! ### loading a translated document and reading off its definitions -/
+
+/-- names and declared parameters of the definitions an extension holds -/
+def sigOfExt (e : Extension) : ExtSig :=
+  { name := e.name,
+    types := e.types.map fun kt => ⟨kt.2.name, kt.2.params⟩,
+    ops := e.operations.map fun ko => (ko.2.name, ko.2.sig.poly.map (·.params)) }
+
+def optParamsBeq : Option (List TypeParam) → Option (List TypeParam) → Bool
+  | none, none => true
+  | some a, some b => TypeParam.beqList a b
+  | _, _ => false
+
+def typesBeq : List DefSig → List DefSig → Bool
+  | [], [] => true
+  | a :: as, b :: bs => a.name == b.name && TypeParam.beqList a.params b.params && typesBeq as bs
+  | _, _ => false
+
+def opsBeq : List (String × Option (List TypeParam)) → List (String × Option (List TypeParam)) → Bool
+  | [], [] => true
+  | a :: as, b :: bs => a.1 == b.1 && optParamsBeq a.2 b.2 && opsBeq as bs
+  | _, _ => false
+
+def ExtSig.beq (a b : ExtSig) : Bool := a.name == b.name && typesBeq a.types b.types && opsBeq a.ops b.ops
+
+/-- the standard extension documents hold no function constants -/
+def noFnSig : Json → Except DecErr (List Ty × List Ty × List String) := fun _ => .error .validation
+
+/-- `_load_extension` succeeds on the document, and the loaded extension holds exactly the
+    definitions (names, declared parameters) the table lists under the extension's name -/
+def loadsFrom (tbl : List ExtSig) (fuel : Nat) (doc : Json) : Bool :=
+  match decExt SetOrd.std noFnSig fuel doc with
+  | .ok e =>
+    match findExt tbl e.name with
+    | some s => (sigOfExt e).beq s
+    | none => false
+  | .error _ => false
 
 end HugrVerif.Ext
